@@ -115,6 +115,10 @@ func (s *Sess) CreatePDR(req *ie.IE) error {
 			if err1 != nil {
 				break
 			}
+			if _, dup := urrids[v]; dup {
+				// the URR list is a set: an id named twice is one reference
+				break
+			}
 			urrids[v] = struct{}{}
 			urrInfo, ok := s.URRIDs[v]
 			if ok {
